@@ -44,6 +44,32 @@ class AM:
             self.fixed.add(s)
         self.bind = {}
         self._cache = {}
+        self.lets = {}
+        # locals bound exactly once by `name = value`: the matcher sees through them (a template written in inlined form also
+        # matches code that names a sub-expression first)
+        stores = {}
+        from .flow import own_scope
+        for n in own_scope(func.node):
+            if isinstance(n, ast.Name) and isinstance(n.ctx, (ast.Store, ast.Del)):
+                stores[n.id] = stores.get(n.id, 0) + 1
+        for n in ast.walk(func.node):
+            if isinstance(n, (ast.Global, ast.Nonlocal)):
+                for x in n.names:
+                    stores[x] = stores.get(x, 0) + 2
+        self.single = {}
+        self.defs = {}
+        for n in ast.walk(func.node):
+            if isinstance(n, ast.Assign) and len(n.targets) == 1 and isinstance(n.targets[0], ast.Name):
+                t = n.targets[0].id
+                self.defs.setdefault(t, []).append(n.value)
+                if stores.get(t) == 1 and t not in self.params:
+                    self.single[t] = n.value
+
+    def let(self, name, template):
+        """Declare a template-level temporary: `name` in later templates stands for the expression `template`, whether the
+        code names that expression (any local whose definition matches) or writes it in place."""
+        self.lets[name] = self.parse(template)
+        return self
 
     # -- templates -----------------------------------------------------------------
     def parse(self, template):
@@ -75,6 +101,19 @@ class AM:
         if isinstance(t, ast.AST):
             if isinstance(t, ast.Name):
                 if not isinstance(a, ast.Name):
+                    if t.id in self.lets and t.id not in b and isinstance(a, ast.expr):
+                        return self._m(self.lets[t.id], a, b)
+                    return False
+                if t.id in self.lets:
+                    if t.id in b:
+                        return b[t.id] == a.id
+                    if a.id in self.defs and a.id not in self.params:
+                        for v in self.defs[a.id]:
+                            b2 = dict(b)
+                            if self._m(self.lets[t.id], v, b2) and a.id not in b2.values():
+                                b.update(b2)
+                                b[t.id] = a.id
+                                return True
                     return False
                 if self.is_placeholder(t.id):
                     if t.id in b:
@@ -87,6 +126,8 @@ class AM:
                     return True
                 return t.id == a.id
             if type(t) is not type(a):
+                if isinstance(a, ast.Name) and isinstance(a.ctx, ast.Load) and a.id in self.single and isinstance(t, ast.expr):
+                    return self._m(t, self.single[a.id], b)
                 return False
             for f in t._fields:
                 if f in _SKIP_FIELDS:
